@@ -143,7 +143,7 @@ let dict_dump (s : state) (from : int) : str =
        (match f with FInterp a -> "i" ^ soi (ion a) | FNative n -> "n" ^ string_of_coq n) ^
        (match len with Some n -> " " ^ soi (ion n) | None -> " -"))) (drop from s.dict))
 
-type sess = { mutable states : state array; mutable cur : int }
+type sess = { mutable states : state array; mutable cur : int; mutable locs : (int, str) Hashtbl.t }
 exception Unsupported
 
 let fnv (h : int64 ref) (s : str) =
@@ -243,9 +243,41 @@ let res_str (r : unit res) : str * state option =
   | RPanic -> ("PANIC", None)
   | RUnsup -> raise Unsupported
 
+(* location of a token of the model: mirror of TokenLocation (file, line, col, line span, token span) *)
+let loc_of_tok (s : state) (((src, a), b) : (nat * nat) * nat) : str =
+  let rec nth l k = match l with [] -> None | x :: r -> if k = 0 then Some x else nth r (k - 1) in
+  match nth s.sources (ion src) with
+  | None -> "loc:none"
+  | Some text ->
+    if string_of_coq text = "" then "loc:none" else
+    let (((line, col), ls), le) = Lexer.token_location text a in
+    Printf.sprintf "loc:<buffer#%d>:%d:%d:%d-%d:%d-%d" (ion src) (ion line) (ion col) (ion ls) (ion le) (ion a) (ion b)
+
+(* error location rule: a failure while the source's own code runs is located through the debug
+   map; a failure while the source is being built through the last token read.  A run-time failure
+   inside a meta block of a rejected source cannot be recovered from the unwound state: "loc:?" *)
+let note_error (ss : sess) (before : state) (after : state) (has_meta : bool) : unit =
+  let rec nth l k = match l with [] -> None | x :: r -> if k = 0 then Some x else nth r (k - 1) in
+  let l =
+    if SL.length after.code > SL.length before.code || (SL.length after.code = SL.length before.code && ion after.cx.cip < SL.length after.code && SL.length after.sources = SL.length before.sources) then
+      (match nth after.dbg (ion after.cx.cip) with Some t -> loc_of_tok after t | None -> "loc:none")
+    else if has_meta then "loc:?"
+    else (match after.last_tok with Some t -> loc_of_tok after t | None -> "loc:none") in
+  Hashtbl.replace ss.locs ss.cur l
+
 let step (ss : sess) (t : str array) : str =
   let s = ss.states.(ss.cur) in
-  let upd (txt, so) = (match so with Some s' -> ss.states.(ss.cur) <- s' | None -> ()); txt in
+  let upd (txt, so) =
+    (match so with
+     | Some s' ->
+       ss.states.(ss.cur) <- s';
+       if txt <> "ok" then begin
+         let has_meta = (t.(0) = "eval" || t.(0) = "compile") &&
+                        (let src = string_of_hexbytes t.(1) in
+                         let rec find i = i + 1 < Stdlib.String.length src && ((src.[i] = '#' && src.[i+1] = '(') || find (i + 1)) in find 0) in
+         note_error ss s s' has_meta
+       end else Hashtbl.remove ss.locs ss.cur
+     | None -> ()); txt in
   let optz x = if x = "-" then None else Some (z_of_hex (Printf.sprintf "%x" (int_of_string x))) in
   match t.(0) with
   | "eval" -> upd (res_str (Build.eval !cur_fops parse_real run_fuel build_fuel (coq_of_string (string_of_hexbytes t.(1))) s))
@@ -300,6 +332,7 @@ let step (ss : sess) (t : str array) : str =
   | "code" -> code_dump s (int_of_string t.(1))
   | "dict" -> dict_dump s (int_of_string t.(1))
   | "pretty" -> "pretty:-"
+  | "errloc" -> (try Hashtbl.find ss.locs ss.cur with Not_found -> "loc:none")
   | "cursor" ->
     let rec nth l k = match l with [] -> None | x :: r -> if k = 0 then Some x else nth r (k - 1) in
     (match nth s.heap 1, nth s.heap 2 with
@@ -330,7 +363,7 @@ let split_steps (t : str array) : str array list =
 (* the whole case is outside the model as soon as one step is *)
 let run ?(flocq = false) (t : str array) : str * str =
   cur_fops := (if flocq then F64.flocq_fops else host_fops);
-  let ss = { states = [| Boot.boot |]; cur = 0 } in
+  let ss = { states = [| Boot.boot |]; cur = 0; locs = Hashtbl.create 7 } in
   try
     let outs = SL.map (fun st -> step ss st) (split_steps t) in
     (cat " | " outs, "-")
